@@ -315,7 +315,10 @@ func cmdSelftest(args []string) int {
 						if res.Faults != nil {
 							f := map[string]int64{}
 							for k, v := range res.Faults {
-								if k != "cache_returns_checked" && k != "distinct_programs" {
+								// (alias32_descriptors_in_window: where the Go heap places a
+								// descriptor depends on when the runtime takes stack and span
+								// pages; the placement adversary is a bias, not a decision)
+								if k != "cache_returns_checked" && k != "distinct_programs" && k != "alias32_descriptors_in_window" {
 									f[k] = v
 								}
 							}
